@@ -163,7 +163,9 @@ def auto_discharge(db, body, tm, site):
     t = site["extra"]
     if site["kind"] == "bounds":
         d = t["detail"]
-        ln, ix = op_const_int(d["len"]), op_const_int(d["index"])
+        tl, ti = tm.operand(d["len"]), tm.operand(d["index"])
+        ln = tl[1] if tl[0] == "const" else None
+        ix = ti[1] if ti[0] == "const" else None
         if ln is not None and ix is not None and ix < ln:
             return "constant index %d into fixed-size array of %d" % (ix, ln)
     if site["kind"] == "divzero":
